@@ -19,6 +19,7 @@ for dp, dn, fn in os.walk(os.path.join(root, "dask")):
             tree = ast.parse(open(p, encoding="utf-8").read())
         except SyntaxError:
             continue
+        alpha.strip_local_annotations(tree)
         snap = alpha.snapshot(tree)
         if snap:
             ref[rel] = snap
